@@ -143,6 +143,7 @@ type sysEnv struct {
 	kind    string // n: ample limits, i: tiny ingress pool, r: tiny resolver limits
 	qto     time.Duration
 	uto     time.Duration
+	baseLeased int64 // UDP slab leases of the idle server (one reader reserve per socket)
 	baseG   int // sdns goroutines after start-up + warm-up
 	baseAll int
 	nextID  uint32
@@ -887,6 +888,11 @@ func (e *sysEnv) build(g *group) {
 		for i := 0; i < g.n; i++ {
 			add(e.mk("udp", "ok", fmt.Sprintf("stagedho%dx%s", i, g.tag), dns.TypeTXT), true)
 		}
+	case "junk": // datagrams that are not admitted queries (oversized, short, QR, bad counts …)
+		for i := 0; i < g.n; i++ {
+			add(e.mk("junk", g.zone, same, dns.TypeA), false)
+		}
+		add(e.mk("udp", g.zone, lbl(0), dns.TypeA), true)
 	case "half": // a TCP client that announces a frame and never completes it: not an admitted query
 		for i := 0; i < g.n; i++ {
 			add(e.mk("half", g.zone, same, dns.TypeA), false)
@@ -932,6 +938,9 @@ func (e *sysEnv) launch(gs []*group) {
 			case "half":
 				wg.Add(1)
 				go func() { defer wg.Done(); e.runHalf(c, 600*time.Millisecond) }()
+			case "junk":
+				wg.Add(1)
+				go func() { defer wg.Done(); e.runJunk(c, 3) }()
 			case "pipe":
 				pipe = append(pipe, c)
 			case "pipeh":
@@ -1131,6 +1140,7 @@ func execSys(f []string) vlib.Res {
 		waitFor(3*time.Second, e.srv.Quiesced)
 		time.Sleep(150 * time.Millisecond)
 		e.baseG, e.baseAll = sdnsGoroutines()
+		e.baseLeased = idleLeased(e.srv)
 		slab, _, _, inline := server.VerifC11UDP(e.srv)
 		or := "ok"
 		if warm != len(gs) {
@@ -1248,8 +1258,13 @@ func execSys(f []string) vlib.Res {
 			sa, sl, sp, s6, sz = resolver.VerifC11Slots(e.res)
 			return sa+sl+sp+s6+sz == 0
 		})
+		// … and every UDP slab lease is back where the idle server holds it
+		var leasedNow int64
+		waitFor(5*time.Second, func() bool { leasedNow, _ = server.VerifC11Leased(e.srv); return leasedNow <= e.baseLeased })
 		or := "ok"
 		switch {
+		case leasedNow > e.baseLeased:
+			or = fmt.Sprintf("FAIL sig=sys/drain/slab-lease-leaked idle=%d now=%d", e.baseLeased, leasedNow)
 		case sa+sl+sp+s6+sz != 0:
 			or = fmt.Sprintf("FAIL sig=sys/drain/limiter-slot-leaked attempts=%d/%d lookups=%d probes=%d v6=%d zones=%d", sa, resolver.VerifC11AttemptCap(e.res), sl, sp, s6, sz)
 		case healthy != 3:
@@ -1322,6 +1337,61 @@ func (e *sysEnv) runUDPUntilReply(c *client, listen time.Duration) {
 		}
 		c.note(buf[:n], time.Since(c.sent))
 	}
+}
+
+// idleLeased samples the lease counter of a quiescent server until it is stable.
+func idleLeased(srv *server.Server) int64 {
+	last, _ := server.VerifC11Leased(srv)
+	for i := 0; i < 20; i++ {
+		time.Sleep(20 * time.Millisecond)
+		now, _ := server.VerifC11Leased(srv)
+		if now == last && i >= 2 {
+			break
+		}
+		last = now
+	}
+	return last
+}
+
+// junkDatagrams: inputs that are not admitted queries — oversized (MSG_TRUNC),
+// exactly the buffer class, short headers, QR set, foreign opcode, bad counts,
+// noise. Nothing is judged about replies; the server must not lose a slab over them.
+func junkDatagrams(name string) [][]byte {
+	q := new(dns.Msg)
+	q.SetQuestion(name, dns.TypeA)
+	ok, _ := q.Pack()
+	mod := func(f func(b []byte)) []byte { b := append([]byte{}, ok...); f(b); return b }
+	big := func(n int) []byte { b := make([]byte, n); copy(b, ok); return b }
+	return [][]byte{
+		big(5000), big(4097), big(4096), big(9000),
+		ok[:5], ok[:11], {},
+		mod(func(b []byte) { b[2] |= 0x80 }),          // QR set
+		mod(func(b []byte) { b[2] |= 5 << 3 }),        // opcode UPDATE
+		mod(func(b []byte) { b[4], b[5] = 0, 0 }),     // QDCOUNT 0
+		mod(func(b []byte) { b[4], b[5] = 0, 2 }),     // QDCOUNT 2
+		mod(func(b []byte) { b[6], b[7] = 0, 9 }),     // ANCOUNT 9
+		append(append([]byte{}, ok[:12]...), 0xc0, 0x0c, 0, 1, 0, 1), // qname = pointer to itself
+	}
+}
+
+func (e *sysEnv) runJunk(c *client, rounds int) {
+	conn, err := net.Dial("udp", e.addr)
+	if err != nil {
+		return
+	}
+	defer conn.Close()
+	for i := 0; i < rounds; i++ {
+		for _, b := range junkDatagrams(c.name) {
+			conn.Write(b)
+		}
+		time.Sleep(5 * time.Millisecond)
+	}
+	// TCP: a frame announcing more than it sends, a sub-header frame, then gone
+	if t, err := net.Dial("tcp", e.addr); err == nil {
+		t.Write([]byte{0, 5, 1, 2, 3, 4, 5})
+		t.Close()
+	}
+	time.Sleep(50 * time.Millisecond)
 }
 
 func waitFor(max time.Duration, cond func() bool) bool {
